@@ -209,6 +209,20 @@ def seqRun (u : Bool) : HState → List HOp → Bool
   | _, [] => true
   | st, op :: r => seqOk st op && seqRun u (hstep u st op).2 r
 
+/-- what ONE operation may do to the status records (keys below `n`), in ANY history, sequential or not:
+    a delivery only touches executable (missing / failed) records and leaves them pending or failed; a retry only releases pending records to failed; a session that
+    runs into its signing time-out (or is otherwise lost) never overwrites an `executed` record. Only the recording of
+    an execution's own outcome is not constrained here (see `executed_final`). -/
+def stepOk (op : HOp) (prev next : List (Nat × Status)) (n : Nat) : Bool :=
+  (List.range n).all fun k =>
+    let a := lookup prev k
+    let b := lookup next k
+    match op with
+    | .deliver _ _   => b == a || (canExec a && (b == .pending || b == .failed))
+    | .retry _ _ _ _ => b == a || (a == .pending && b == .failed)
+    | .lost _        => a != .executed || b == .executed
+    | .outcome _ _ _ => true
+
 /-- executed is final along a trace of status maps -/
 def finalAlong (k : Nat) : List (List (Nat × Status)) → Bool
   | a :: b :: r => (lookup a k != .executed || lookup b k == .executed) && finalAlong k (b :: r)
